@@ -425,6 +425,29 @@ func runCheck(ck *Check, tier string, seed int64, replay string, keepEvidence bo
 	// child-level failures
 	buildFailed := strings.Contains(logs, "[build failed]") || strings.Contains(logs, "[setup failed]") ||
 		regexp.MustCompile(`(?m)^# golang.org/x/net`).MatchString(logs) && !haveRes && !strings.Contains(logs, "=== RUN")
+	// Violations the monitor recorded (replay file written, line printed at once) before the
+	// child died or ran into its time limit stand, whatever happened afterwards: a tree that
+	// breaks the property often also hangs or crashes a later case.
+	early := 0
+	if !haveRes && !buildFailed {
+		seen := map[string]bool{}
+		for _, m := range regexp.MustCompile(`(?m)^VERIF-VIOLATION property=(\S+) key=(.*) replay=(\S+)$`).FindAllStringSubmatch(logs, -1) {
+			if m[1] != ck.ID || seen[m[3]] {
+				continue
+			}
+			seen[m[3]] = true
+			if _, err := os.Stat(m[3]); err != nil {
+				continue
+			}
+			lines = append(lines, fmt.Sprintf("VIOLATION property=%s replay=%s", ck.ID, m[3]))
+			lines = append(lines, "  key="+m[2]+" (recorded before the child process ended abnormally)")
+			early++
+		}
+		if early > 0 {
+			nviol += early
+			verdict = 1
+		}
+	}
 	if !haveRes {
 		switch {
 		case buildFailed:
